@@ -68,7 +68,9 @@ CHECKS = {
     "C06": dict(
         text="Coq theorems: the layouts read from the transcoders' source equal the hand-transcribed specification layouts "
              "(decode and encode side), and for every layout every scalar reached by a path is the little-endian integer "
-             "at the layout's offset and width, for every payload (generic theorem field_at_offset + encode_at_offset). "
+             "at the layout's offset and width, for every payload (generic theorem field_at_offset + encode_at_offset); for "
+             "the string tables STR/STRx the count is the integer at 0, offset k the integer at w+w*k and the strings the "
+             "NUL-terminated runs after the last offset (C06_string_table_fields_at_the_spec_offsets). "
              "A consistent decode/encode swap changes the generated layout and breaks the equality; the search then "
              "exhibits a payload on which the decoded field differs from the independent spec reader.",
         ref="DESIGN.md 5.2",
@@ -150,8 +152,11 @@ CHECKS = {
         text="Coq theorems over tables regenerated from the source on every run: complete in-kernel sweeps of all 256 / 65536 "
              "flag numbers and all boolean vectors for the six flag codecs; an unbounded (all n : N) exactness theorem for "
              "every enum table; tied to the code by fail-closed translators and an exhaustive implementation-vs-extracted-"
-             "model correspondence. Hit points / AI tags: arithmetic + UTF-8 theorems about hand models, correspondence on "
-             "dense + stratified inputs.",
+             "model correspondence. Hit points: exact fixed-point theorems (both directions, quotient exact, within the "
+             "28-digit Decimal context) for all raw values; AI tags: number->rich->number for EVERY u32 whose bytes are "
+             "valid UTF-8, member iff exact tag, injectivity - on top of a proved UTF-8 decode/encode round trip; both "
+             "tied by an exact-shape translator (translate_scalars.py) and correspondence on dense + boundary + "
+             "neighbourhood inputs.",
         ref="DESIGN.md 5.4",
         note="Trusted: Coq kernel + vm_compute, translate_flags.py / translate_enums.py, extraction, CPython "
              "str.format/int(x,2)/Enum/Decimal semantics.",
@@ -225,12 +230,14 @@ CHECKS = {
     "C19": dict(
         text="Coq theorems: the model decoder is total and its fuel adequate for every byte string (OutOfFuel unreachable: "
              "each chunk-loop iteration consumes >= 8 bytes, each record >= 1), for the chunk loop and for every "
-             "well-formed layout; decode-stability is proved per section kind (round-trip lemmas). Tie: correspondence on "
+             "well-formed layout; and for EVERY byte string the decoder accepts, the model is writable and the written bytes "
+             "decode to the very same model (C19_accepted_input_is_writable_and_stable: no well-formedness assumed - "
+             "truncated last section, oversize size fields, over-long fixed sections, ragged record tails). Tie: correspondence on "
              "a malformed-input stream comparing result or error class, with a wall-clock limit per case for the Python "
              "loops' termination.",
         ref="DESIGN.md 5.3",
         note="Termination of the Python loops themselves is observed (per-case timeout) not proved; the model's is proved.",
-        tech="Coq proof (fuel adequacy by induction on fuel/bytes) + translator + malformed-stream correspondence",
+        tech="Coq proof (fuel adequacy; decode-stability by induction over the layout language and the chunk loop) + translator + malformed-stream correspondence",
     ),
 }
 
@@ -273,7 +280,7 @@ def main():
         }],
         "checks": checks,
         "not_applicable": [{"property_id": p, "reason": NOT_YET} for p in ALL if p not in CHECKS],
-        "notes": "fix: commits in /repo: 7837be1 (C01/C19 section names), 31ffbf5 + 5fe88e1 (C08 string editor). See KNOWN_FINDINGS.txt and DESIGN.md.",
+        "notes": "14 fix: commits in /repo (7837be1 ... fe425b2) and 10 recorded findings: see KNOWN_FINDINGS.txt and DESIGN.md section 10.4. Seeded breaking changes and what catches them: /verif/seeded and DESIGN.md section 10.6.",
     }
     Path("/verif/MANIFEST.json").write_text(json.dumps(m, indent=1) + "\n")
 
